@@ -403,5 +403,9 @@ def run(chk, prog):
     wr = [x for x, lhs, op, rhs in A.assignments_in(mainf["body"]) if (A.declref(lhs) or {}).get("decl") == bound["decl"]]
     incs = [x for x in A.walk(mainf["body"]) if x["k"] == "UnaryOperator" and x["op"] in ("++", "--") and (A.declref(x["c"][0]) or {}).get("decl") == bound["decl"]]
     chk.check(not wr and not incs, "R4", A.loc(mainf, loop), "laststep is never reassigned", "main:laststep-reassigned")
+    # ---- RD: dimensional consistency of the quantities this property depends on (sa/dims.py) ----------------------------------------
+    from . import dimrules
+    nrd = dimrules.run(chk, prog, "RD")
+    chk.floor("RD-requirements", nrd or 0, 1)
     chk.notes.append("C19: constructor forwarding by parameter role, symbolic folding of the queued modulation at zero amplitudes, "
                      "exactly-once push/pop/drain pairing on the CFG, queue length = loop bound. Not decided: spectrum of the noise.")
